@@ -13,22 +13,33 @@ PARTS = {
     "struct": ["InvDocumentOrder", "InvRootsDedup", "InvExact"],
     "attr": ["InvDocumentOrder", "InvExact"],
     "truth": ["InvAlgebra", "InvCaseless", "InvStrict"],
+    "reuse": ["InvReuse"],
+    "fold": ["InvAlgebra", "InvCaseless", "InvStrict", "InvFold", "InvDocumentOrder", "InvExact"],
 }
 
 TIERS = {
     # replay caps: cases of each part that are executed (the model runs are always exhaustive)
-    "quick": dict(nmax=5, anodes=2, alevels=1, deep2=3, cap=dict(struct=9000, attr=7000, truth=100000),
-                  every=dict(struct=7, attr=2, truth=1),
+    "quick": dict(nmax=5, anodes=2, alevels=1, deep2=3, cap=dict(struct=9000, attr=7000, truth=100000, reuse=900, fold=100000),
+                  every=dict(struct=7, attr=2, truth=1, reuse=1, fold=1),
                   random_jobs=4, forests=40, queries=25, terms=250),
-    "thorough": dict(nmax=6, anodes=3, alevels=2, deep2=6, cap=dict(struct=250000, attr=250000, truth=100000),
-                     every=dict(struct=3, attr=4, truth=1),
+    "thorough": dict(nmax=6, anodes=3, alevels=2, deep2=6, cap=dict(struct=250000, attr=250000, truth=100000, reuse=100000, fold=100000),
+                     every=dict(struct=3, attr=4, truth=1, reuse=1, fold=1),
                      random_jobs=12, forests=200, queries=40, terms=3000),
 }
+
+SPECIAL = (223, 7838, 962, 64257)      # characters on which lower-casing and case folding differ (Query.tla FoldC)
 
 ASSUMPTIONS = [
     "trees are Entry / Section / Directive objects under parentless document entries; several documents are "
     "queried through a Result holding them (that is what makes 'roots' more than a constant)",
-    "names are strings; attribute values are ASCII strings and non-negative integers (no floats, None, bools)",
+    "names are strings; attribute values are strings and non-negative integers (no floats, None, bools); text is ASCII "
+    "plus a small alphabet beyond it (E acute, sharp s and its capital, final sigma, the fi ligature) whose "
+    "per-character lower-case and case-folding mappings are transcribed in Query.tla and compared with the "
+    "interpreter's for every character used (alphabet events)",
+    "'case-insensitive' on text where lower-casing and case folding differ: an observation is accepted if ONE of "
+    "the two normalisations explains it (interpreted and compiled under the same one)",
+    "predicate objects: a combination (a & b, a | b, ~a) built from existing objects is a new object; the operands "
+    "keep the truth value of the term they were built as, whatever is built from them later",
     "inside a query a Boolean predicate is evaluated left to right with short-circuit and / or; if an evaluated "
     "atom raises, the predicate does not match that node / attribute (other alternatives are still tried); "
     "selections are always compared exactly, in document order",
@@ -83,7 +94,37 @@ def rforest(fl):
                     for i, nd in enumerate(fl))
 
 
+def store_terms(tr, upto):
+    """The terms of the objects built by the first `upto` events of a trace (for messages only)."""
+    z = {"f": "", "ci": False, "arg": {"t": "i", "s": [], "i": 0}}
+    st = []
+    for e in tr["events"][:upto]:
+        if e["ev"] == "new":
+            st.append(e["term"])
+        elif e["ev"] == "combine":
+            a, b = st[e["a"] - 1], st[e["b"] - 1]
+            st.append(a + [dict(z, op="not")] if e["op"] == "not" else a + b + [dict(z, op=e["op"])])
+    return st
+
+
 def revent(tr, e):
+    if e["ev"] in ("otruth", "oselect", "new", "combine"):
+        k = next(i for i, x in enumerate(tr["events"]) if x is e)
+        st = store_terms(tr, k)
+        hist = "; ".join("o%d = %s" % (i + 1, rterm(x["term"])) if x["ev"] == "new" else
+                         "o%d = %s" % (i + 1, "~o%d" % x["a"] if x["op"] == "not" else
+                                       "o%d %s o%d" % (x["a"], "&" if x["op"] == "and" else "|", x["b"]))
+                         for i, x in enumerate(y for y in tr["events"][:k] if y["ev"] in ("new", "combine")))
+        if e["ev"] in ("new", "combine"):
+            return "objects [%s]: building the next one (%s) gave %s" % (hist, e["ev"], e["out"])
+        if e["ev"] == "otruth":
+            return "objects [%s]: then o%d (built as %s) over values [%s]: test=%s to_pyfunc=%s (%s)" % (
+                hist, e["obj"], rterm(st[e["obj"] - 1]), ", ".join(rv(v) for v in e["vals"]),
+                "".join("TF"[not x] for x in e["test"]), "".join("TF"[not x] for x in e["pyf"]), e["out"])
+        return "objects [%s]: then forest [%s] %s with o%d (built as %s) as the %s predicate on children of %s returned %s (%s)" % (
+            hist, rforest(tr["forest"]), e["via"], e["obj"], rterm(st[e["obj"] - 1]), e["pos"], e["recv"], e["res"], e["out"])
+    if e["ev"] == "alphabet":
+        return "character %d: environment lower=%s casefold=%s" % (e["c"], e["lower"], e["fold"])
     if e["ev"] == "truth":
         return "term %s over values [%s]: test=%s to_pyfunc=%s" % (
             rterm(e["term"]), ", ".join(rv(v) for v in e["vals"]), "".join("TF"[not x] for x in e["test"]),
@@ -104,7 +145,19 @@ def binding_selftest(traces):
             if (tru is None and e["ev"] == "truth" and e["test"] == e["pyf"] and any(e["test"])
                     and all(k["op"] != "atom" or (k["f"] == "eq" and not k["ci"]) for k in e["term"])):
                 tru = (t, e)
-    if sel is None or tru is None:
+    reu = None
+    for t in traces:
+        evs = t["events"]
+        ot = [k for k, e in enumerate(evs) if e["ev"] == "otruth" and e["out"] == "ok"]
+        cb = [k for k, e in enumerate(evs) if e["ev"] == "combine"]
+        after = [k for k in ot if cb and k > cb[0]]
+        if "reuse/" in t["id"] and len(cb) == 1 and len(after) >= 2 and evs[cb[0]]["op"] != "not":
+            d, b = after[:2]
+            if evs[d]["test"] != evs[b]["test"] and evs[d]["test"] == evs[d]["pyf"]:
+                reu = dict(id="selftest/operand", forest=t["forest"],
+                           events=evs[:b] + [dict(evs[b], test=evs[d]["test"], pyf=evs[d]["pyf"])])
+                break
+    if sel is None or tru is None or reu is None:
         raise lib.MachineryError("self-test: no suitable recorded call")
     t, e = sel
     r = e["res"]
@@ -120,6 +173,7 @@ def binding_selftest(traces):
         (dict(id="selftest/test", forest=tru[0]["forest"],
               events=[dict(tru[1], test=[not x if j == i else x for j, x in enumerate(tru[1]["test"])])]),
          "Truth.interpreted"),
+        (reu, "OperandUnchanged:evaluates-as-a-later-combination"),
         (dict(id="selftest/clean", forest=t["forest"], events=[e, tru[1]]), None)]
     val = lib.validate_traces("QueryTrace", "QueryTrace.cfg", [x for x, _ in tests], jobs=1)
     got = dict((rj["id"], rj["clause"]) for rj in val["rejected"])
@@ -142,11 +196,11 @@ def run(prop, tier):
         cfgp = os.path.join(gen, "QueryMC_%s.cfg" % part)
         with open(cfgp, "w") as f:
             f.write(cfg_text(part, T))
-        r = lib.run_tlc("QueryMC", cfgp, workers=max(2, jobs // 2), tag="q-" + part, timeout=2400, raw_cases=True)
+        r = lib.run_tlc("QueryMC", cfgp, workers=1 if part in ("reuse", "fold") else max(2, jobs // 2), tag="q-" + part, timeout=2400, raw_cases=True)
         return part, lib.require_ok(r, "QueryMC part " + part)
 
     models, cases, emitted = [], [], {}
-    with concurrent.futures.ThreadPoolExecutor(max_workers=3) as ex:
+    with concurrent.futures.ThreadPoolExecutor(max_workers=len(PARTS)) as ex:
         for part, r in ex.map(model, sorted(PARTS)):
             emitted[part] = len(r.cases)
             if not r.cases:
@@ -178,25 +232,45 @@ def run(prop, tier):
                              random=dict(seed=lib.seed() * 1000 + j, forests=T["forests"], queries=T["queries"],
                                          terms=T["terms"])))
     outs = lib.run_driver_parallel("drive_query.py", payloads, hashseeds=list(range(1, 33)), timeout=1500, jobs=jobs)
-    traces, nsel, ntru = [], 0, 0
+    traces, nsel, ntru, nobj = [], 0, 0, 0
     for k, o in enumerate(outs):
         for t in o["traces"]:
             t["id"] = "%d/%s" % (k, t["id"])
             traces.append(t)
         nsel += o["stats"]["selects"]
         ntru += o["stats"]["truths"]
-    print("timing: driver %.1fs, %d traces (%d select cases, %d truth tables)" % (time.time() - t1, len(traces), nsel, ntru))
+        nobj += o["stats"].get("sessions", 0)
+    print("timing: driver %.1fs, %d traces (%d select cases, %d truth tables, %d object sessions)"
+          % (time.time() - t1, len(traces), nsel, ntru, nobj))
 
     # vacuity: every entry point / option / observation kind the check relies on was really exercised
     reach = {}
     for t in traces:
         ndocs = sum(1 for nd in t["forest"] if nd["d"] == 0)
+        used = set()
+        special = any(c in SPECIAL for nd in t["forest"] for c in nd["n"] + [x for a in nd["a"] for x in a["s"]])
         for e in t["events"]:
             if e["ev"] == "truth":
                 reach["truth"] = reach.get("truth", 0) + 1
                 if any(a != b for a, b in zip(e["test"], e["pyf"])):
                     reach["truth-differs"] = reach.get("truth-differs", 0) + 1
+                if (any(k["op"] == "atom" and k["ci"] for k in e["term"])
+                        and any(c in SPECIAL for x in [k["arg"] for k in e["term"]] + e["vals"] for c in x["s"])):
+                    reach["caseless-special-casing-truth"] = reach.get("caseless-special-casing-truth", 0) + 1
                 continue
+            if e["ev"] in ("new", "combine", "otruth", "oselect", "alphabet"):
+                reach["ev:" + e["ev"]] = reach.get("ev:" + e["ev"], 0) + 1
+                if e["ev"] == "combine":
+                    used.update([e["a"], e["b"]])
+                elif e["ev"] in ("otruth", "oselect") and e["obj"] in used:
+                    k = "operand-%s-after-combination" % ("evaluated" if e["ev"] == "otruth" else "queried")
+                    reach[k] = reach.get(k, 0) + 1
+                    if e["ev"] == "oselect" and e["res"]:
+                        reach["operand-query-nonempty"] = reach.get("operand-query-nonempty", 0) + 1
+                continue
+            if special and e["res"] and any(k["op"] == "atom" and k["ci"] for lv in e["qs"]
+                                            for k in lv["nterm"] + [x for a in lv["aq"] for x in a["term"]]):
+                reach["caseless-special-casing-select"] = reach.get("caseless-special-casing-select", 0) + 1
             for k in ("via:" + e["via"], "deep" if e["deep"] else "children", "levels:%d" % len(e["qs"])):
                 reach[k] = reach.get(k, 0) + 1
             if e["res"]:
@@ -212,6 +286,9 @@ def run(prop, tier):
             "levels:2", "levels:3", "nonempty", "several-roots", "result-requeried", "attr:none", "attr:any",
             "attr:all", "attr:nany", "attr:nall", "name:any", "name:lit", "name:term", "name:fn"]
     need.append("via:reparent")
+    need += ["ev:new", "ev:combine", "ev:otruth", "ev:oselect", "ev:alphabet", "operand-evaluated-after-combination",
+             "operand-queried-after-combination", "operand-query-nonempty", "caseless-special-casing-truth",
+             "caseless-special-casing-select"]
     unreached = [k for k in need if not reach.get(k)]
 
     # ---- (3) validation ---------------------------------------------------
@@ -246,7 +323,12 @@ def run(prop, tier):
     for t in traces:
         for e in t["events"]:
             nevents += 1
-            if e["ev"] == "select" and e["res"]:
+            if e["ev"] in ("otruth", "oselect"):
+                if any(e["test"] if e["ev"] == "otruth" else e["res"]):
+                    nontrivial.add(json.dumps([t["id"], e], sort_keys=True))
+            elif e["ev"] in ("new", "combine", "alphabet"):
+                pass
+            elif e["ev"] == "select" and e["res"]:
                 nontrivial.add(json.dumps([t["forest"], e["qs"], e["deep"], e["roots"], e["recv"]], sort_keys=True))
             elif e["ev"] == "truth" and any(e["test"]) and not all(e["test"]):
                 nontrivial.add(json.dumps(e["term"], sort_keys=True))
@@ -258,12 +340,12 @@ def run(prop, tier):
     ev = lib.evidence(
         prop, tier, models, val, evaluations=nevents, distinct_nontrivial=len(nontrivial),
         rule="cases = (forest, query, deep, roots) states and boolean terms enumerated by TLC in QueryMC (parts struct, "
-             "attr, truth; a VERIF_SEED-determined sample of the emitted states is executed in the quick tier) plus "
+             "attr, truth, fold, and reuse: predicate objects evaluated after serving as operands; a VERIF_SEED-determined sample of the emitted states is executed in the quick tier) plus "
              "seeded random forests / queries / terms; each is built from real Entry / Result / Boolean objects and "
              "run through select, find, __getitem__, chained Result.select and the free select function, and through "
              "test() and to_pyfunc(); evaluations = recorded calls; distinct_nontrivial = distinct select calls with a "
              "non-empty result plus distinct terms whose truth table is not constant",
         samples=samples, assumptions=ASSUMPTIONS,
-        extra=dict(reached=reach, binding_selftest=selftest, states_emitted=emitted, cases_replayed=len(cases), select_cases=nsel, truth_tables=ntru,
+        extra=dict(reached=reach, binding_selftest=selftest, states_emitted=emitted, cases_replayed=len(cases), select_cases=nsel, truth_tables=ntru, object_sessions=nobj,
                    laws_checked_on_model=sorted(set(sum(PARTS.values(), []))), exhaustive=False))
     return verdict.finish(ev)
